@@ -102,11 +102,39 @@ def ast_dump(text):
         return "INVALID:" + text
 
 
+SEPARATOR_SOURCES = [
+    "a = scale(1)\n\x0c\nb = scale(2)  # pyrefact: ignore\nc = scale(3)\n", "s = 'x\u2028y'\nb = scale(2)  # pyrefact: ignore\nc = scale(3)\n",
+    "t = 'p\x1cq\x1dr'\nu = 'v\x85w'\nb = scale(2)  # pyrefact: ignore\nc = scale(3)\nd = scale(4)\n", "# page\x0c break\nb = foo(2)  # pyrefact: ignore\nc = foo(3)\n",
+    "x = '\x0b'\ny = '\u2029'\nb = foo(foo(2))  # pyrefact: ignore\nc = foo(3) + foo(4)\n",
+]
+# (pattern, replacement, source, the text whose tree the result must have): templates that only change the nesting
+RENEST = [
+    ("for {{i}} in {{it}}:\n    {{a}}\n{{b}}", "for {{i}} in {{it}}:\n    {{a}}\n    {{b}}", "out = []\nfor i in range(3):\n    out.append(i)\nout.append('tick')\nprint(out)\n",
+     "out = []\nfor i in range(3):\n    out.append(i)\n    out.append('tick')\nprint(out)\n"),
+    ("for {{i}} in {{it}}:\n    {{a}}\n    {{b}}", "for {{i}} in {{it}}:\n    {{a}}\n{{b}}", "out = []\nfor i in range(3):\n    out.append(i)\n    out.append('tick')\nprint(out)\n",
+     "out = []\nfor i in range(3):\n    out.append(i)\nout.append('tick')\nprint(out)\n"),
+    ("for {{i}} in {{it}}:\n    {{a}}\n{{b}}", "for {{i}} in {{it}}:\n    {{a}}\n    {{b}}", "def f(out):\n    for i in range(3):\n        out.append(i)\n    out.append('tick')\n    return out\n",
+     "def f(out):\n    for i in range(3):\n        out.append(i)\n        out.append('tick')\n    return out\n"),
+    ("if {{c}}:\n    {{a}}\n{{b}}", "if {{c}}:\n    {{a}}\n    {{b}}", "if flag:\n    x = 1\ny = 2\n", "if flag:\n    x = 1\n    y = 2\n"),
+    ("{{a}}\n{{b}}", "{{b}}\n{{a}}", "x = 1\ny = 2\n", "y = 2\nx = 1\n"),
+]
+
+
 def oracle_suite(ctx):
     from pyrefact import core, pattern_matching as pm
 
     s = Suite("sub-oracle", kind="oracle")
-    srcs = SOURCES + [src for (_sha, src, _f) in sweep.pick(sweep.generated_corpus(), ctx, 8) + sweep.pick(sweep.example_corpus(), ctx, 10)]
+    for (pat, repl, src, want) in RENEST:
+        s.cases += 1
+        try:
+            out, n = pm.subn(pat, repl, src)
+        except Exception as ex:  # noqa: BLE001
+            s.disagreements.append({"pattern": pat, "repl": repl, "src": src, "what": f"subn raised {ex!r}"})
+            continue
+        s.nt([pat, src])
+        if ast_dump(out) != ast_dump(want):
+            s.disagreements.append({"pattern": pat, "repl": repl, "src": src, "out": out, "what": f"sub({pat!r}, {repl!r}) reported {n} replacement(s) but the result is not the source with the match replaced"})
+    srcs = SOURCES + SEPARATOR_SOURCES + [src for (_sha, src, _f) in sweep.pick(sweep.generated_corpus(), ctx, 8) + sweep.pick(sweep.example_corpus(), ctx, 10)]
     long_src = "\n".join([f"v{i} = scale({i})" for i in range(40)] + ["frozen = scale(1000)  # pyrefact: ignore", "tail = scale(7)"]) + "\n"
     srcs += [long_src, long_src.replace("\n", "\r\n")]
     for src in srcs:
